@@ -372,7 +372,17 @@ fn body(sc: Sc) -> vsched::Body {
                     let exit = recs.iter().find(|r| matches!(&r.op, Op::Exit(w) if *w == i));
                     let is_member_now = snap.groups.iter().any(|(s2, g2, m2, _)| *s2 == s && *g2 == g && m2.contains(&a));
                     // a join that completed before any removal began was effective: it must be reported
-                    let surely_joined = joins.iter().any(|j| leaves.iter().all(|l| l.call > j.ret) && exit.is_none_or(|x| x.call > j.ret));
+                    // (only joins that began after this monitor was installed count)
+                    let installed_at = recs
+                        .iter()
+                        .find(|r| match &r.op {
+                            Op::Monitor(g2, w2) => w2 == m && Some(*g2) == *mg,
+                            Op::MonitorScope(s2, w2) => w2 == m && s2 == ms && mg.is_none(),
+                            _ => false,
+                        })
+                        .map(|r| r.ret)
+                        .unwrap_or(0);
+                    let surely_joined = joins.iter().any(|j| j.call > installed_at && leaves.iter().all(|l| l.call > j.ret) && exit.is_none_or(|x| x.call > j.ret));
                     if surely_joined && !seq.contains(&true) {
                         bad.push(format!("monitor {} missed the join of {a} to {s}/{g}; it saw {evs:?}", id(*m)));
                     }
@@ -431,6 +441,17 @@ fn scenarios() -> Vec<(Sc, Option<usize>, usize)> {
         (
             Sc { name: "join-vs-exit", n_cells: 5, setup: vec![Op::Monitor("g", m), Op::MonitorScope(all, mw)], threads: vec![vec![Op::Join(DS, "g", vec![a])], vec![Op::Exit(a)]], strangers: vec![n, b] },
             None,
+            8,
+        ),
+        (
+            // the exiting actor is the last member of a group that somebody else joins at the same time
+            Sc { name: "sole-member-exits-vs-other-joins", n_cells: 5, setup: vec![Op::Join(DS, "g", vec![a]), Op::Join("s", "g", vec![a]), Op::Monitor("g", m)], threads: vec![vec![Op::Exit(a)], vec![Op::Join(DS, "g", vec![b]), Op::Join("s", "g", vec![b])]], strangers: vec![n] },
+            None,
+            8,
+        ),
+        (
+            Sc { name: "sole-member-leaves-vs-other-joins-vs-query", n_cells: 5, setup: vec![Op::Join("s", "g", vec![a]), Op::MonitorScope("s", mw)], threads: vec![vec![Op::Leave("s", "g", vec![a])], vec![Op::Join("s", "g", vec![b])], vec![Op::Members("s", "g"), Op::Listing]], strangers: vec![n] },
+            Some(3),
             8,
         ),
         (
